@@ -345,7 +345,8 @@ def r3_container_check(cx):
             cx.ob("R3", "R3/ContainerPack.check/%s-result-decides" % kind, _result_guards(gb, cs[0], gtrue[0][0], gfalse, gerr), g,
                   "the %s check result reaches the `if !ok { return Ok(false) }` test" % kind, ln=cs[0][1].get("ln"))
     # the arm is selected by the pack header's kind
-    sw = [i for i in range(gb.n) if gb.term(i)["k"] == "switch" and ("field", "magic") in gb.origins(gb.term(i)["op"])]
+    sw = [i for i in range(gb.n) if gb.term(i)["k"] == "switch" and not gb.is_cleanup(i) and ("field", "magic") in gb.origins(gb.term(i)["op"])
+          and any(d[0] == "stmt" and d[3]["rv"]["k"] == "discr" and d[3]["rv"].get("of", "").endswith("PackKind") for d in gb.defs().get(op_local(gb.term(i)["op"]), []))]
     tags = ref.REF["tags"]["PackKind"]
     ok = False
     if len(sw) == 1:
